@@ -150,7 +150,17 @@ type c01Route struct {
 	Kind string `json:"kind"`
 	Pat  string `json:"pat"`
 	Beh  c01Beh `json:"beh"`
+	Via  string `json:"via"`
 }
+
+// c01Split: a pattern as group prefix + rest ("/abc/d" = Group("/abc") + "/d"; one segment or less: Group("/") + pattern)
+func c01Split(pat string) (string, string) {
+	if i := strings.IndexByte(pat[1:], '/'); i >= 0 && i+2 < len(pat) {
+		return pat[:i+1], pat[i+1:]
+	}
+	return "/", pat
+}
+
 type c01Case struct {
 	Table  []c01Route `json:"table"`
 	Req    []string   `json:"req"`
@@ -208,7 +218,7 @@ func TestC01(t *testing.T) {
 	ctxKind := os.Getenv("VERIF_CTX")
 	o := newOut(t)
 	defer o.close()
-	var n, nRewritten, nMulti, n405, n404 int
+	var n, nRewritten, nMulti, n405, n404, nVia int
 	nRan := 0
 	readCases(t, "VERIF_CASES", func(line []byte) {
 		var cs c01Case
@@ -239,10 +249,23 @@ func TestC01(t *testing.T) {
 				}
 				return nil
 			}
-			if r.Kind == "use" {
+			head, tail := c01Split(r.Pat)
+			switch {
+			case r.Kind == "use" && r.Via == "list":
+				app.Use([]string{r.Pat}, h)
+			case r.Kind == "use" && r.Via == "group":
+				app.Group(head).Use(tail, h)
+			case r.Kind == "use" && r.Via == "grouplist":
+				app.Group(head).Use([]string{tail}, h)
+			case r.Kind == "use":
 				app.Use(r.Pat, h)
-			} else {
+			case r.Via == "group":
+				app.Group(head).Add(strings.Split(r.Kind, "+"), tail, h)
+			default:
 				app.Add(strings.Split(r.Kind, "+"), r.Pat, h)
+			}
+			if r.Via != "" && r.Via != "app" {
+				nVia++
 			}
 		}
 		obs := c01Obs{}
@@ -302,7 +325,7 @@ func TestC01(t *testing.T) {
 		if bad != "" {
 			kinds := make([]string, len(cs.Table))
 			for i, r := range cs.Table {
-				kinds[i] = r.Kind + " " + r.Pat + " " + r.Beh.T + r.Beh.To
+				kinds[i] = r.Kind + " " + r.Pat + " " + r.Beh.T + r.Beh.To + " via " + r.Via
 			}
 			o.violation(map[string]any{"check": bad, "prop": "C01", "table": cs.Table, "routes": strings.Join(kinds, " ; "),
 				"req": strings.Join(cs.Req, " "), "cfg": cfg, "ctx": ctxKind,
@@ -313,5 +336,5 @@ func TestC01(t *testing.T) {
 		}
 	})
 	o.summary(map[string]any{"cases": n, "with_rewrite_or_override": nRewritten, "multi_handler": nMulti, "n405": n405, "n404": n404,
-		"distinct_ran": nRan, "violations": o.nV})
+		"distinct_ran": nRan, "registrations_through_group_or_list": nVia, "violations": o.nV})
 }
